@@ -609,6 +609,11 @@ func Large() *TextSet {
 			out = append(out, dup, append(append([]interface{}{}, a...), 7.0))
 		}
 		out = append(out, seq(2), seq(0))
+		// keys of 1 500 and 5 000 characters
+		for _, n := range []int{1500, 5000} {
+			k := strings.Repeat("k", n)
+			out = append(out, map[string]interface{}{k: 1.0, "b": 2.0}, map[string]interface{}{k: 2.0, "b": 2.0}, map[string]interface{}{k + "x": 1.0})
+		}
 		// same length beyond 64 elements: an insertion in front of duplicate runs, one duplicate dropped
 		for _, p := range [][2][]interface{}{{{"z", "z", "v", "v"}, {"w", "z", "z", "v"}}, {{7.0, 7.0, 8.0, 8.0}, {9.0, 7.0, 7.0, 8.0}}} {
 			out = append(out, append(append([]interface{}{}, p[0]...), seq(70)...), append(append([]interface{}{}, p[1]...), seq(70)...))
